@@ -17,6 +17,8 @@ enum Site : int {
   T_AFTER_READY = 14, T_LOST_CAS = 15, T_SPIN_BEFORE = 16, T_SPIN_ADVANCE = 17,
   T_SPIN_AFTER = 18, T_TIMED_OUT = 19, T_ARE_READY = 20, T_ALLOC_PROBE = 21,
   A_ATOMIC8 = 22,  // TSan build only: any 8-bit atomic access (sim/atomwrap.cpp)
+  X_BLOCKED = 23,  // a simulated thread waits for a mutex / once / static guard (sim/blockwrap.cpp)
+  A_ATOMIC32 = 24, // TSan build only: 32-bit atomic load/store/exchange/CAS (sim/atomwrap.cpp)
   LIM_GET = 40, LIM_SET = 41, TA_FAIL_ALLOC = 50,
   B_FIRST = 101, B_SIMPLE_ABS = 101, B_CANPARSE_FAST = 102, B_PATH_URL = 103,
   B_PATH_AGG = 104, B_IPV4_FAST = 105, B_HOST_URL = 106, B_HOST_AGG = 107,
@@ -33,9 +35,9 @@ inline const char* site_name(int s) {
     case 9: return "T.pub1"; case 10: return "T.pub2"; case 11: return "T.pub3"; case 12: return "T.pub4";
     case 13: return "T.after_buffer"; case 14: return "T.after_ready"; case 15: return "T.lost_cas";
     case 16: return "T.spin_before"; case 17: return "T.spin_advance"; case 18: return "T.spin_after";
-    case 19: return "T.timed_out"; case 20: return "T.are_ready"; case 21: return "T.alloc"; case 22: return "A.atomic8";
+    case 19: return "T.timed_out"; case 20: return "T.are_ready"; case 21: return "T.alloc"; case 22: return "A.atomic8"; case 23: return "X.blocked"; case 24: return "A.atomic32";
     case 40: return "L.get"; case 41: return "L.set"; case 50: return "TA.fail_alloc";
-    case 60: return "op.begin"; case 61: return "op.end"; case 62: return "thread.start";
+    case 60: return "op.begin"; case 61: return "op.end"; case 62: return "thread.start"; case 63: return "thread.end";
     case 101: return "B1.simple_absolute"; case 102: return "B2.can_parse_scanner";
     case 103: return "B3.path_url"; case 104: return "B4.path_aggregator"; case 105: return "B5.ipv4_fast";
     case 106: return "B6.host_url"; case 107: return "B7.host_aggregator"; case 108: return "B8.tabs_newline";
